@@ -641,6 +641,11 @@ pub fn check_c01(tier: &str) -> i32 {
     let cfgs = base_cfgs(None);
     let st = explore_sequences("C01", &cfgs, depth, "R", &default_alphabet);
     rep.phase("sequences", st, json!({"depth": depth, "configs": cfgs.len()}));
+    // one reply per request also when the peer reads slowly: production TCP / TLS server over real
+    // sockets, requests pipelined until the server's writes block (finding F13)
+    let st = crate::checks::sessions::backpressure_stream_phase(rep.thorough(), 1);
+    rep.phase("production TCP / TLS server: every pipelined request is answered although the peer reads late", st, json!({"pipelined_requests": if rep.thorough() { 12000 } else { 2500 }, "cases": 4}));
+    rep.require_class("reply-stream-under-back-pressure:tls");
     for c in ["read-ok", "read-exception", "write-ok", "write-exception", "unknown-function", "empty", "unconfigured-unit", "invalid:fc15:over-limit", "invalid:fc1:over-limit", "invalid:fc5:coil-value", "invalid:fc3:length"] {
         rep.require_class(c);
     }
